@@ -122,6 +122,11 @@ def main():
             if i < len(units):
                 submit(units[i])
                 i += 1
+    elif mode == "stop_early":
+        # everything is submitted, then stop() is called with a backlog:
+        # stop() itself must let the queue drain before it ends the workers
+        for u in units:
+            submit(u)
     else:  # bursts
         for burst in spec["bursts"]:
             for _ in range(burst):
@@ -144,6 +149,14 @@ def main():
     except BaseException as exc:
         out["stop"] = f"raised {type(exc).__name__}: {exc}"
     out["stop_s"] = time.time() - t0
+    if mode == "stop_early":
+        # never block here: a unit dropped by stop() has a future that will
+        # never be done
+        out["undone_after_stop"] = [u for u, f in fut_unit.values()
+                                    if not f.done()]
+        futures._futures = [f for f in futures._futures if f.done()]
+        while consume():
+            pass
     out["thread_alive"] = runner._thread.is_alive()
     out["queue_left"] = runner._queue.qsize()
     try:
